@@ -1303,3 +1303,141 @@ def h_create_manifest(kind: str):
         rp = val if kind == "list" else val.fields.get("manifest_path")
         h.ensure("ORDER:returned-path-is-the-file-just-written(durably,via-write_file)", z3.is_true(z3.simplify(pyops.str_z(rp) == p)))
     return harness
+
+
+# =================================================================================== CARRY (C15): manifest entries
+def _sym_datafile(I, tag):
+    c = I.ctx
+    return SObj("DataFile", {
+        "file_path": SStr(c.fresh_str(f"{tag}_path")), "file_format": EnumVal("FileFormat", "PARQUET", "parquet"),
+        "partition_values": PDict({}), "record_count": SInt(c.fresh_int("rc")), "file_size_in_bytes": SInt(c.fresh_int("sz")),
+        "column_sizes": None, "value_counts": None, "null_value_counts": None, "lower_bounds": None, "upper_bounds": None,
+        "checksum": SOpt(c.fresh_bool("ck_none"), SStr(c.fresh_str("ck"))),
+        "added_snapshot_id": SOpt(c.fresh_bool(f"{tag}_added_by_none"), SInt(c.fresh_int(f"{tag}_added_by"))),
+        "sequence_number": SOpt(c.fresh_bool(f"{tag}_seq_none"), SInt(c.fresh_int(f"{tag}_seq")))}, label=f"{tag}-file")
+
+
+def h_manifest_entries(h: H):
+    """CARRY (write side): one entry per input file; files carried over (existing_files) are written with status EXISTING and
+    their ORIGINAL adding snapshot id and sequence number; new files with status ADDED, the committing snapshot's id and
+    sequence number; both sequence-number columns agree; the entry names the file's own path."""
+    from pyvc import acc as _acc
+    c = h.ctx
+    st = Store(h)
+    st.install(h.reg)
+    misc.install_clock(h.reg, c)
+    misc.install_uuid(h.reg, c)
+    _acc.install(h.reg)
+    fm = h.obj("FileManager", storage=st.obj, manifests_path="metadata/manifests")
+    h.reg.modfuncs["fastavro.writer"] = lambda I, a, k: None
+    h.reg.modfuncs["io.BytesIO"] = lambda I, a, k: TheoryObj("bytesio")
+    h.reg.theory_methods[("bytesio", "getvalue")] = lambda I, o, a, k: SBytes(I.ctx.fresh_str("avro_bytes"))
+    sid = SInt(c.fresh_int("committing_snapshot_id"))
+    h.assume(sid.z != 0)
+    seq = SInt(c.fresh_int("committing_sequence_number"))
+    added = TheoryObj("symiter", fields={"mk": lambda I2: _sym_datafile(I2, "new")})
+    existing = TheoryObj("symiter", fields={"mk": lambda I2: _sym_datafile(I2, "carried")})
+    records, seqs = _acc.new_acc("records"), _acc.new_acc("entry_sequence_numbers")
+
+    def inv(I, env, it):
+        if not it.get("after_body"):
+            return []
+        el = it["elem"]
+        df, status = el
+        adds = records.fields["added"]
+        res = [("CARRY:exactly-one-entry-per-file", z3.BoolVal(len(adds) == 1))]
+        if len(adds) != 1 or not isinstance(adds[0], PDict):
+            return res
+        r = adds[0].d
+        eqv = lambda a, b: pyops.bool_z(pyops.py_eq(a, b))
+        res.append(("CARRY:entry-names-the-file's-own-path", z3.BoolVal(isinstance(r.get("data_file"), PDict) and r["data_file"].d.get("file_path") is df.fields["file_path"])))
+        res.append(("CARRY:both-sequence-number-columns-agree", eqv(r.get("sequence_number"), r.get("file_sequence_number"))))
+        if str(df.label).startswith("carried"):
+            res.append(("CARRY:carried-file-has-status-EXISTING", z3.BoolVal(status == 0 and r.get("status") == 0)))
+            res.append(("CARRY:carried-file-keeps-its-original-adding-snapshot", eqv(r.get("snapshot_id"), df.fields["added_snapshot_id"])))
+            res.append(("CARRY:carried-file-keeps-its-original-sequence-number", eqv(r.get("sequence_number"), df.fields["sequence_number"])))
+        else:
+            res.append(("CARRY:new-file-has-status-ADDED", z3.BoolVal(status == 1 and r.get("status") == 1)))
+            res.append(("CARRY:new-file-is-stamped-with-the-committing-snapshot-and-sequence-number",
+                        z3.And(eqv(r.get("snapshot_id"), sid), eqv(r.get("sequence_number"), seq))))
+        return res
+
+    def havoc(I, env, it):
+        env.vars["records"] = records
+        env.vars["entry_sequence_numbers"] = seqs
+        _acc.reset(records)
+        _acc.reset(seqs)
+    h.reg.loops[f"{FMOD}:FileManager.create_manifest_file"] = {
+        0: LoopSpec(invariant=inv, havoc=havoc, name="entries",
+                    skip=["records", "entry_sequence_numbers", "df", "status", "entry_snapshot_id", "entry_sequence_number", "record"])}
+    h.reg.builtins["min"] = Builtin("min", lambda I, a, k: SInt(I.ctx.fresh_int("min_seq")))
+    out, val = h.run(f"{FMOD}:FileManager.create_manifest_file", [fm, added, EnumVal("ManifestContent", "DATA", 0), sid],
+                     {"existing_files": existing, "sequence_number": seq, "pre_write_hook": None})
+    h.ensure("CARRY:create_manifest_file-does-not-raise-on-well-typed-files", out == "ok", detail=repr(val) if out != "ok" else "")
+    h.cover("CARRY:carried-and-new-entries-both-reachable")
+
+
+def h_manifest_read_entries(h: H):
+    """CARRY (read side): read_manifest_file gives each file the adding snapshot id and sequence number recorded in its entry."""
+    from pyvc import acc as _acc
+    c = h.ctx
+    st = Store(h)
+    st.install(h.reg)
+    _acc.install(h.reg)
+    fm = h.obj("FileManager", storage=st.obj, manifests_path="metadata/manifests")
+    cur = {}
+
+    def mk_record(I2):
+        cc = I2.ctx
+        rec = {"status": SInt(cc.fresh_int("status")),
+               "snapshot_id": SOpt(cc.fresh_bool("entry_sid_none"), SInt(cc.fresh_int("entry_sid"))),
+               "sequence_number": SOpt(cc.fresh_bool("entry_seq_none"), SInt(cc.fresh_int("entry_seq"))),
+               "file_sequence_number": SOpt(cc.fresh_bool("entry_fseq_none"), SInt(cc.fresh_int("entry_fseq"))),
+               "data_file": PDict({"file_path": SStr(cc.fresh_str("entry_path")), "file_format": "parquet",
+                                   "partition": PDict({"values": PDict({})}), "record_count": SInt(cc.fresh_int("rc")),
+                                   "file_size_in_bytes": SInt(cc.fresh_int("sz")), "lower_bounds": None, "upper_bounds": None,
+                                   "column_sizes": None, "value_counts": None, "null_value_counts": None,
+                                   "checksum": SOpt(cc.fresh_bool("ck_none"), SStr(cc.fresh_str("ck")))})}
+        cur["rec"] = rec
+        return PDict(rec)
+    h.reg.modfuncs["fastavro.reader"] = lambda I, a, k: TheoryObj("symiter", fields={"mk": mk_record})
+    h.reg.theory_methods[("storage", "open_file")] = lambda I, o, a, k: TheoryObj("stream")
+    h.reg.theory_methods[("stream", "__enter__")] = lambda I, o, a, k: o
+    h.reg.theory_methods[("stream", "__exit__")] = lambda I, o, a, k: None
+    files = _acc.new_acc("data_files")
+
+    def inv(I, env, it):
+        if not it.get("after_body"):
+            return []
+        adds = files.fields["added"]
+        res = [("CARRY:one-file-per-entry", z3.BoolVal(len(adds) == 1))]
+        if len(adds) != 1 or not isinstance(adds[0], SObj):
+            return res
+        df, rec = adds[0], cur["rec"]
+        eqv = lambda a, b: pyops.bool_z(pyops.py_eq(a, b))
+        res.append(("CARRY:read:file-path-from-its-entry", z3.BoolVal(df.fields.get("file_path") is rec["data_file"].d["file_path"])))
+        res.append(("CARRY:read:adding-snapshot-from-its-entry", eqv(df.fields.get("added_snapshot_id"), rec["snapshot_id"])))
+        fs, sq = rec["file_sequence_number"], rec["sequence_number"]
+        got = df.fields.get("sequence_number")
+        gn, gv = (got.isnone, pyops.int_z(got.val)) if isinstance(got, SOpt) else ((z3.BoolVal(True), z3.IntVal(0)) if got is None else (z3.BoolVal(False), pyops.int_z(got)))
+        want_none = z3.And(fs.isnone, sq.isnone)
+        want_val = z3.If(fs.isnone, sq.val.z, fs.val.z)
+        res.append(("CARRY:read:sequence-number-from-its-entry(file_sequence_number,else-sequence_number)",
+                    z3.And(gn == want_none, z3.Implies(z3.Not(want_none), gv == want_val))))
+        return res
+
+    def havoc(I, env, it):
+        env.vars["data_files"] = files
+        _acc.reset(files)
+    other = _acc.new_acc("json_files")
+    h.reg.loops[f"{FMOD}:FileManager.read_manifest_file"] = {
+        "*": LoopSpec(invariant=lambda I, e, it: [], havoc=lambda I, e, it: e.vars.__setitem__("data_files", other), name="json-fallback",
+                      skip=["data_files", "data_file", "file_entry"]),
+        "iter:reader": LoopSpec(invariant=inv, havoc=havoc, name="entries",
+                    skip=["data_files", "record", "record_raw", "df_record", "lower_bounds", "upper_bounds", "column_sizes", "value_counts",
+                          "null_value_counts", "data_file"])}
+    p = h.str("manifest_path")
+    h.assume(z3.Select(st.ex, st.key(h.I, p)))
+    out, val = h.run(f"{FMOD}:FileManager.read_manifest_file", [fm, p])
+    if out == "ok":
+        h.ensure("CARRY:read:returns-the-accumulated-files", val is files)
